@@ -1,6 +1,6 @@
 (* C04 (H) — proofs about model/C04_model.v: history level, explicit clock. *)
 From Coq Require Import ZArith NArith List String Bool Lia.
-From AV Require Import lib.Str model.C04_model model.C04_run.
+From AV Require Import lib.Str model.C04_model model.C04_run model.C04_old.
 Import ListNotations.
 Local Open Scope Z_scope.
 
@@ -81,11 +81,14 @@ Proof.
     destruct (life c =? 0); unfold fresh_v; cbn [snd with_blocks with_both v_blocks]; exists m; rewrite find_del_other by exact E; auto.
 Qed.
 
-Lemma keeps_untrash v h' : h' <> h -> keeps v (snd (vol_untrash v h')).
+(* Untrash keeps an existing block file; restoring another hash does not touch h *)
+Lemma keeps_untrash v h' : keeps v (snd (vol_untrash v h')).
 Proof.
-  intros E (m & A & B). unfold vol_untrash. destruct (v_ro v); [exists m; auto|].
-  destruct (first_trash (v_trash v) h' None); unfold fresh_v; cbn [snd with_both v_blocks]; [|exists m; auto].
-  exists m. rewrite find_set_other by congruence. auto.
+  intros (m & A & B). unfold vol_untrash. destruct (v_ro v); [exists m; auto|].
+  destruct (first_trash (v_trash v) h' None); [|exists m; auto].
+  destruct (find_block (v_blocks v) h') eqn:Eb; [exists m; auto|].
+  unfold fresh_v; cbn [snd with_both v_blocks]. exists m.
+  rewrite find_set_other by (intros ->; congruence). auto.
 Qed.
 
 Lemma keeps_empty v now : keeps v (vol_empty v now).
@@ -123,12 +126,12 @@ Proof.
   pose proof (keeps_trash v h' now Hn) as K. destruct (vol_trash c v h' now) as [[| |] v']; cbn [snd] in *; constructor; assumption.
 Qed.
 
-Lemma untrash_all_keeps vs h' : h' <> h -> Forall2 keeps vs (snd (untrash_all vs h')).
+Lemma untrash_all_keeps vs h' : Forall2 keeps vs (snd (untrash_all vs h')).
 Proof.
-  intros E. induction vs as [|v r IH]; cbn [untrash_all]; [constructor|].
+  induction vs as [|v r IH]; cbn [untrash_all]; [constructor|].
   destruct (untrash_all r h') as [n r'] eqn:E'. cbn [snd] in IH.
   destruct (v_ro v); cbn [snd]; [constructor; [apply keeps_refl|exact IH]|].
-  pose proof (keeps_untrash v h' E) as K. destruct (vol_untrash v h') as [[| |] v']; cbn [snd] in *; constructor; assumption.
+  pose proof (keeps_untrash v h') as K. destruct (vol_untrash v h') as [[| |] v']; cbn [snd] in *; constructor; assumption.
 Qed.
 
 Lemma map_keeps (f : vol -> vol) vs : (forall v, keeps v (f v)) -> Forall2 keeps vs (map f vs).
@@ -142,12 +145,11 @@ Proof.
   apply map_keeps. intros v. apply keeps_trash_item. exact Hn.
 Qed.
 
-(* one step keeps a fresh copy fresh: clock not before t, not yet t + ttl, and the step is not an
-   Untrash of the same hash *)
-Lemma step_keeps s now o : t <= now -> now < t + ttl c -> o <> Untrash h ->
+(* one step — ANY request — keeps a fresh copy fresh: clock not before t, not yet t + ttl *)
+Lemma step_keeps s now o : t <= now -> now < t + ttl c ->
   Forall2 keeps (vols s) (vols (snd (step c s now o))).
 Proof.
-  intros H1 H2 Ho. destruct o as [h'|h'|h'|its|h'|h'|]; cbn [step].
+  intros H1 H2. destruct o as [h'|h'|h'|its|h'|h'|]; cbn [step].
   - unfold h_put. destruct (writable (vols s)); [apply Forall2_keeps_refl|].
     destruct (touch_first (vols s) h' now) as [vs'|] eqn:Et; cbn [snd vols].
     + eapply touch_first_keeps; eassumption.
@@ -161,19 +163,18 @@ Proof.
     pose proof (trash_all_keeps (vols s) h' now H2) as K.
     destruct (trash_all c (vols s) h' now) as [n vs']. cbn [snd vols] in *. exact K.
   - unfold h_untrash. destruct (writable (vols s)); [apply Forall2_keeps_refl|].
-    assert (E : h' <> h) by (intros ->; apply Ho; reflexivity).
-    pose proof (untrash_all_keeps (vols s) h' E) as K.
+    pose proof (untrash_all_keeps (vols s) h') as K.
     destruct (untrash_all (vols s) h') as [n vs']. cbn [snd vols] in *. exact K.
   - cbn [snd vols]. unfold empty_trash. apply map_keeps. intros v. destruct (v_ro v); [apply keeps_refl|apply keeps_empty].
 Qed.
 
 (* a whole history *)
-Definition calm (p : Z * op) : Prop := t <= fst p /\ fst p < t + ttl c /\ snd p <> Untrash h.
+Definition calm (p : Z * op) : Prop := t <= fst p /\ fst p < t + ttl c.
 
 Lemma final_keeps hs : Forall calm hs -> forall s, Fresh (vols s) -> Fresh (vols (final c s hs)).
 Proof.
   induction hs as [|[now o] r IH]; intros HF s HS; cbn [final]; [exact HS|].
-  inversion HF as [|x l [A [B D]] HF']; subst. cbn [fst snd] in *.
+  inversion HF as [|x l [A B] HF']; subst. cbn [fst snd] in *.
   apply IH; [exact HF'|]. eapply Forall2_keeps; [apply step_keeps; assumption|exact HS].
 Qed.
 
@@ -218,12 +219,12 @@ Proof.
 Qed.
 
 (* fresh_survives: after an acknowledged Put/Touch of h at time t, whatever requests follow (Put,
-   Touch, Get, trash lists, Delete, EmptyTrash, Untrash of other hashes) while t <= now < t + ttl,
+   Touch, Get, trash lists, Delete, EmptyTrash, Untrash — of any hash) while t <= now < t + ttl,
    some volume still holds h as a block file with a timestamp >= t (so it is neither in the trash nor
    trashable).  Holds for every prefix of the history, i.e. at every intermediate point. *)
 Theorem fresh_survives c s t o h code s1 hs :
   (o = Put h \/ o = Touch h) -> step c s t o = (code, s1) -> code = 200%N ->
-  Forall (calm c h t) hs ->
+  Forall (calm c t) hs ->
   Fresh h t (vols (final c s1 hs)).
 Proof.
   intros Ho Hs Hc Hh. apply final_keeps; [exact Hh|]. eapply ack_establishes; eassumption.
@@ -232,17 +233,17 @@ Qed.
 (* the clock hypothesis follows from a non-decreasing clock that has not reached t + ttl *)
 Fixpoint nondecr (prev : Z) (hs : list (Z * op)) : Prop :=
   match hs with [] => True | (now, _) :: r => prev <= now /\ nondecr now r end.
-Lemma nondecr_calm c h t : forall hs prev, t <= prev -> nondecr prev hs ->
-  Forall (fun p => fst p < t + ttl c /\ snd p <> Untrash h) hs -> Forall (calm c h t) hs.
+Lemma nondecr_calm c t : forall hs prev, t <= prev -> nondecr prev hs ->
+  Forall (fun p => fst p < t + ttl c) hs -> Forall (calm c t) hs.
 Proof.
   induction hs as [|[now o] r IH]; intros prev Hp Hn HF; constructor; inversion HF; subst; cbn [nondecr] in Hn.
-  - unfold calm. cbn [fst snd] in *. destruct Hn. split; [lia|tauto].
+  - unfold calm. cbn [fst snd] in *. destruct Hn. split; [lia|assumption].
   - destruct Hn. eapply IH; [|eassumption|assumption]. lia.
 Qed.
 
 Corollary fresh_survives_clock c s t o h code s1 hs :
   (o = Put h \/ o = Touch h) -> step c s t o = (code, s1) -> code = 200%N ->
-  nondecr t hs -> Forall (fun p => fst p < t + ttl c /\ snd p <> Untrash h) hs ->
+  nondecr t hs -> Forall (fun p => fst p < t + ttl c) hs ->
   exists v m, In v (vols (final c s1 hs)) /\ find_block (v_blocks v) h = Some m /\ t <= m.
 Proof.
   intros Ho Hs Hc Hn HF.
@@ -251,8 +252,8 @@ Proof.
   apply Exists_exists in X. destruct X as (v & A & m & B & D). eauto.
 Qed.
 
-(* F20: with an Untrash of the same hash in between the statement fails — Untrash renames an older
-   trashed copy over the fresh block file, and the next Delete trashes it *)
+(* ---- regression witness about the OLD model (model/C04_old.v, Untrash before /repo fa470fa): F20 —
+   Untrash renamed an older trashed copy over the fresh block file and the next Delete trashed it ---- *)
 Local Open Scope string_scope.
 Definition f20_cfg : cfg := {| ttl := 7200 * NS; life := 86400 * NS; blob_trash := true |}.
 Definition f20_s0 : state :=
@@ -262,27 +263,29 @@ Definition f20_history : list (Z * op) :=
 Definition f20_s3 : state := final f20_cfg f20_s0 (firstn 2 f20_history).
 Definition f20_tail : list (Z * op) := [ (7302 * NS, Untrash "a"); (7303 * NS, Delete "a") ].
 
-(* the acknowledged Put at t = 7301 s, then Untrash and Delete inside the TTL: the block is gone *)
-Lemma f20_ack : exists s1, step f20_cfg f20_s3 (7301 * NS) (Put "a") = (200%N, s1) /\
-  existsb (fun v => has_block v "a") (vols (final f20_cfg s1 f20_tail)) = false /\
-  h_get (final f20_cfg s1 f20_tail) "a" = 404%N.
-Proof. eexists. split; [vm_compute; reflexivity|]. split; vm_compute; reflexivity. Qed.
+Lemma f20_ack_old : exists s1, step_old f20_cfg f20_s3 (7301 * NS) (Put "a") = (200%N, s1) /\
+  existsb (fun v => has_block v "a") (vols (final_old f20_cfg s1 f20_tail)) = false.
+Proof. eexists. split; [vm_compute; reflexivity|]. vm_compute. reflexivity. Qed.
 Lemma f20_clock : nondecr (7301 * NS) f20_tail /\ Forall (fun p => fst p < 7301 * NS + ttl f20_cfg) f20_tail.
 Proof.
   unfold f20_tail, f20_cfg, NS. cbn [nondecr ttl fst]. split; [lia|]. repeat constructor; cbn [fst]; lia.
 Qed.
 
-Theorem fresh_survives_untrash_refuted :
+Theorem old_fresh_survives_untrash_refuted :
   exists c s t h code s1 hs,
-    step c s t (Put h) = (code, s1) /\ code = 200%N /\ nondecr t hs /\
+    step_old c s t (Put h) = (code, s1) /\ code = 200%N /\ nondecr t hs /\
     Forall (fun p => fst p < t + ttl c) hs /\
-    ~ (exists v m, In v (vols (final c s1 hs)) /\ find_block (v_blocks v) h = Some m).
+    ~ (exists v m, In v (vols (final_old c s1 hs)) /\ find_block (v_blocks v) h = Some m).
 Proof.
-  destruct f20_ack as (s1 & A & B & _). destruct f20_clock as [C D].
+  destruct f20_ack_old as (s1 & A & B). destruct f20_clock as [C D].
   exists f20_cfg, f20_s3, (7301 * NS), "a", 200%N, s1, f20_tail.
   split; [exact A|]. split; [reflexivity|]. split; [exact C|]. split; [exact D|].
   intros (v & m & Hin & Hf).
-  assert (X : existsb (fun v => has_block v "a") (vols (final f20_cfg s1 f20_tail)) = true).
+  assert (X : existsb (fun v => has_block v "a") (vols (final_old f20_cfg s1 f20_tail)) = true).
   { apply existsb_exists. exists v. split; [exact Hin|]. unfold has_block. rewrite Hf. reflexivity. }
   rewrite B in X. discriminate.
 Qed.
+
+(* the same history on the model of the code as it is now keeps the block *)
+Example f20_history_now_keeps_block : h_get (final f20_cfg f20_s0 f20_history) "a" = 200%N.
+Proof. vm_compute. reflexivity. Qed.
